@@ -21,3 +21,14 @@ unsigned long nondet_ulong(void);
 static inline size_t tmcg_get_gcry_mpi_ui(gcry_mpi_t a) { (void)a; return nondet_ulong(); }
 #define VV_OK(v) (__CPROVER_is_fresh((v), sizeof(*(v))) && (v)->cap == ROWCAP && (v)->size <= ROWCAP && __CPROVER_is_fresh((v)->data, ROWCAP * sizeof(vec_mpi)))
 #define T57_SCRATCH vec_u8__cell, vec_mpi__cell, tmcg_openpgp_mem_alloc
+
+/* ---- sizes-only containers of SubpacketParse / PacketDecodeTag2 ---- */
+static inline void pair_vec_u8_vec_u8__ctor_0(pair_vec_u8_vec_u8 *p) { vec_u8__ctor_0(&p->first); vec_u8__ctor_0(&p->second); }
+static inline void notations_t__ctor_0(notations_t *v) { v->data = 0; v->size = 0; v->cap = 0; }
+static inline void notations_t__push_back(notations_t *v, pair_vec_u8_vec_u8 *x) { (void)x; __CPROVER_assert(v->size < (size_t)-1, "model limit: notation count"); v->size = v->size + 1; }
+static inline void vec_vec_u8__ctor_0(vec_vec_u8 *v) { v->data = 0; v->size = 0; v->cap = 0; }
+static inline size_t vec_vec_u8__size(vec_vec_u8 *v) { return v->size; }
+static inline void vec_vec_u8__push_back(vec_vec_u8 *v, vec_u8 *x) { (void)x; __CPROVER_assert(v->size < (size_t)-1, "model limit: element count"); v->size = v->size + 1; }
+vec_u8 vec_vec_u8__cell;   /* scratch element: arbitrary octet string */
+static inline vec_u8 *vec_vec_u8__op_index(vec_vec_u8 *v, size_t i) { __CPROVER_assert(i < v->size, "vector index in range"); return &vec_vec_u8__cell; }
+static inline void gcry_mpi_release(gcry_mpi_t a) { (void)a; }
